@@ -403,9 +403,34 @@ fn neg_zero_ranges(w: &mut dyn Write) {
     }
 }
 
+fn emit_range_views(w: &mut dyn Write, es: &[(usize, u32)]) {
+    let mut line = format!("range_views {}", es.len());
+    for (c, wt) in es {
+        line.push_str(&format!(" {} {}", c, wt));
+    }
+    writeln!(w, "{}", line).unwrap();
+}
+
 pub fn gen_c12(tier: &str, rng: &mut Rng, w: &mut dyn Write) {
     let thorough = tier == "thorough";
     neg_zero_ranges(w);
+    // "for any range": weights outside [0,1] and the special values (1.5, 2, -1, +-inf, NaNs, +-smallest subnormal),
+    // inside complete and incomplete rank pairs
+    for wx in [0x3FC00000u32, 0x40000000, 0xBF800000, 0x7F800000, 0xFF800000, 0x7FC00000, 0xFFC00000, 0x00000001, 0x80000001] {
+        for r in [0usize, 7] {
+            let cs = pocket_combos(r);
+            emit_range_views(w, &cs.iter().map(|c| (*c, wx)).collect::<Vec<_>>());
+            emit_range_views(w, &cs.iter().enumerate().map(|(i, c)| (*c, if i == 1 { WA } else { wx })).collect::<Vec<_>>());
+            emit_range_views(w, &cs.iter().take(5).map(|c| (*c, wx)).collect::<Vec<_>>());
+        }
+        for suited in [true, false] {
+            let cs = pair_combos(2, 9, suited);
+            emit_range_views(w, &cs.iter().map(|c| (*c, wx)).collect::<Vec<_>>());
+            let mut es: Vec<(usize, u32)> = cs.iter().map(|c| (*c, wx)).collect();
+            es.push((combo_code(0, 4), 0x7FC00000));
+            emit_range_views(w, &es);
+        }
+    }
     // the combos (in iteration order) and the text of every rank pair, given in either rank order
     for r in 0..13 {
         writeln!(w, "rank_pair 0 {} 0", r).unwrap();
